@@ -1,6 +1,7 @@
 SPECIFICATION Spec
 CONSTANTS
   NoFinally = FALSE
+  CloseUnwinds = TRUE
   AllowReentry = FALSE
   MaxLen = 3
   MaxOps = 4
